@@ -452,7 +452,9 @@ func main() {
 
 		mid := b2
 		if !c.Quick() {
-			mid = full
+			// Thorough: try to exhaust each 2x2 / 3x1 scenario within 300000
+			// executions, else complete preemption bound 3.
+			mid = e3.Limits{Exhaust: true, MaxBound: 3, MaxExecs: 300_000}
 		}
 
 		p2 := progs(alphabet, 2)
